@@ -291,8 +291,16 @@ func (m *C19Monitor) AfterTx(c *Chain, ctx sdk.Context, tx sdk.Tx, ok bool) {
 					}
 				}
 			}
-			// (b) a reporter paying from the stake selected to it
+			// (b) a reporter paying from the stake selected to it - as far as it is the FEE that is taken: what arrives in
+			// the dispute account in this transaction is what the transaction records as fee and as escrowed stake; stake
+			// taken from the selectors beyond that is not a fee payment (added after C19-j)
 			if fromBond {
+				recorded := after.recFee.Sub(m.h.recFee).Add(after.recEsc.Sub(m.h.recEsc))
+				arrived := after.disp.Sub(m.h.disp)
+				m.st.Bucket("c19|fee-from-stake|arrived-minus-recorded=%d", arrived.Sub(recorded).Sign())
+				if arrived.Sub(recorded).GT(math.NewInt(1000)) {
+					c.Violate("C19", "c19", "more-taken-from-selected-stake-than-recorded-as-fee:"+name, map[string]interface{}{"arrived_in_dispute_account": arrived.String(), "recorded_fee_and_escrow": recorded.String(), "tx": describe(tx.GetMsgs())})
+				}
 				for s := range signers {
 					for sel, rep := range m.h.sel {
 						if rep == s {
